@@ -717,6 +717,28 @@ func ruleC22b(c *Ctx, r *Report) {
 		}
 		r.ok(rule, name, cons, c.Pos(s.In.Pos()), why)
 	}
+	// MP-C22c: the routing flag is (re)assigned for every statement: the RequestContext is reused for every piece of a
+	// multi-statement packet, so a statement that does not assign the flag inherits the previous statement's replica flag
+	execIn := c.IfaceMethod("proxy/plan", "Plan", "ExecuteIn")
+	if execIn != nil {
+		for _, ei := range callsIn(doQuery, func(cc *ssa.CallCommon) bool { return callsIfaceMethod(cc, execIn) }) {
+			// every path from the function entry to the execution passes a SetFromSlave call
+			missed := false
+			searchExits(doQuery, nil, doQuery.Blocks[0], SearchOpts{Stop: func(in ssa.Instruction) bool {
+				if in == ei {
+					missed = true
+					return true
+				}
+				cc := callCommon(in)
+				return cc != nil && callsFunc(cc, setFS)
+			}})
+			if !missed {
+				r.ok("MP-C22c", c.FuncName(doQuery), "flag-assigned-before:Plan.ExecuteIn", c.Pos(ei.Pos()), "every path to the execution assigns the replica flag for this statement")
+			} else {
+				r.viol("MP-C22c", c.FuncName(doQuery), "flag-assigned-before:Plan.ExecuteIn", c.Pos(ei.Pos()), "a statement can be executed without the replica flag having been assigned for it: in a multi-statement packet it inherits the flag of the previous statement (a write after a read runs on a replica)")
+			}
+		}
+	}
 	// handleShow only for StmtShow
 	noPlan := c.seMethod("handleQueryWithoutPlan")
 	hs := c.seMethod("handleShow")
